@@ -100,11 +100,14 @@ def run(ctx):
     P = evaluate(ctx, "C16_cases", obs)
     report(ctx, obs, P)
     # targeted probes: a blocked backend Close must not stall the connection; the shared qids.Mapper under contention
-    rc3, out3, obs3 = ctx.gotest("p9", "^TestVerifC16(Stall|RenameDisconnect)$", FILES, timeout=300)
+    rc3, out3, obs3 = ctx.gotest("p9", "^TestVerifC16(Stall|RenameDisconnect|Probes)$", FILES, timeout=300)
     st = [o for o in obs3 if o.get("kind") == "stall"]
     rd = [o for o in obs3 if o.get("kind") == "renamedisc"]
     if rd and not rd[0]["answered"]:
         ctx.violation("C16:deadlock:rename-disconnect", "Trenameat was never answered (server-wide deadlock under renameMu.W): " + rd[0]["what"], rd[0])
+    for o in [o for o in obs3 if o.get("kind") == "probe"]:
+        if not o["answered"]:
+            ctx.violation("C16:deadlock:%s" % o["name"], "requests were never answered (3 x 1.1 s): " + o["what"], o)
     if rc3 != 0 or not st or not rd:
         ctx.harness_broken("harness TestVerifC16Stall/RenameDisconnect failed (rc=%d)" % rc3, out3)
     elif not st[0]["answered"]:
